@@ -18,6 +18,7 @@ import (
 	"math/rand"
 	"sort"
 	"strings"
+	"sync/atomic"
 	"time"
 
 	"github.com/element-of-surprise/coercion/plugins"
@@ -108,6 +109,8 @@ type sched struct {
 	held        map[string]bool // objects whose calls are held until holdUntil is satisfied (or drain)
 	holdUntil   map[string]int  // obj -> number of PStarts that must have been observed (plan 0)
 	holdMax     time.Duration
+	ovOpen      int64         // overrun calls still waiting for their context to be cancelled
+	ovCap       time.Duration // how long an overrun call waits for the cancellation
 }
 
 func newSched(rec *recorder, sc *Scenario, tr, ep int) *sched {
@@ -151,6 +154,10 @@ func newSched(rec *recorder, sc *Scenario, tr, ep int) *sched {
 	}
 	s.holdUntil = sc.HoldUntil
 	s.holdMax = 400 * time.Millisecond
+	s.ovCap = 8 * time.Second
+	if sc.TimeoutMs > 0 && sc.TimeoutMs < 5000 {
+		s.ovCap = time.Duration(5*sc.TimeoutMs+300) * time.Millisecond
+	}
 	s.lastAdvance = time.Now()
 	s.lastEvent = time.Now()
 	go s.watchdog()
@@ -394,11 +401,13 @@ func (s *sched) exec(ctx context.Context, r Req) (any, *plugins.Error) {
 	}
 	tag := fmt.Sprintf("%s@%d", ref.name, c.n)
 	if out == "overrun" {
+		atomic.AddInt64(&s.ovOpen, 1)
 		select {
 		case <-ctx.Done():
 			ctxdone = true
-		case <-time.After(8 * time.Second):
+		case <-time.After(s.ovCap):
 		}
+		defer atomic.AddInt64(&s.ovOpen, -1)
 	}
 	s.emit(ref.pl, func() ev {
 		if !ov {
@@ -413,6 +422,8 @@ func (s *sched) exec(ctx context.Context, r Req) (any, *plugins.Error) {
 		return nil, &plugins.Error{Message: "perm " + tag, Permanent: true}
 	case "wrongtype":
 		return WrongResp{X: c.n}, nil
+	case "wrongtr": // a response of the wrong type together with a retryable error
+		return WrongResp{X: c.n}, &plugins.Error{Message: "tr " + tag}
 	case "overrun":
 		return nil, &plugins.Error{Message: "late " + tag}
 	}
